@@ -16,7 +16,7 @@
 From Coq Require Import QArith List Bool Arith ZArith String Ascii Permutation Lia.
 Import ListNotations.
 Require Import MV.Spec.Builtins MV.Model.MissingValuePyDict MV.Model.TextCleanPyDict MV.Model.BuiltinsFw MV.Gen.Vocab.
-Require Import MV.Proofs.BuiltinsP MV.Proofs.ImputeP MV.Proofs.TextCleanP MV.Proofs.WindowP.
+Require Import MV.Proofs.BuiltinsP MV.Proofs.ImputeP MV.Proofs.ImputeGroupedP MV.Proofs.TextCleanP MV.Proofs.WindowP.
 Open Scope Q_scope.
 
 (* ============================================ vocabulary (T1) ============================================ *)
@@ -169,8 +169,20 @@ Theorem C19_grouped_single_group : forall m keys c, List.length keys = List.leng
   (forall k k', In k keys -> In k' keys -> key_eqb k k' = true) -> impute_grouped_spec m keys c = impute_spec m c.
 Proof. exact grouped_single_group_l. Qed.
 Print Assumptions C19_grouped_single_group.
-(* NOT PROVED: py_grouped_num m keys c = impute_grouped_spec m keys c (the index-mutating grouped loops of python_dict.py);
-   that equation is checked on every generated PythonDict run (chk_imp_spec and chk_imp_fw both hold). *)
+(* the grouped loops of python_dict.py (dict of row-index lists, `result` updated in place group after group, fall-back
+   to the whole-column statistic) compute the grouped spec, for every method, any keys, any column *)
+Theorem C19_pydict_grouped_refines : forall m keys c, List.length keys = List.length c ->
+  py_grouped_num m keys c = impute_grouped_spec m keys c.
+Proof. exact pydict_grouped_refines_l. Qed.
+Print Assumptions C19_pydict_grouped_refines.
+Theorem C19_pydict_perform_grouped_refines : forall m keys c, List.length keys = List.length c ->
+  py_perform_imputation true m (Some keys) c = Some (impute_grouped_spec m keys c).
+Proof. exact pydict_perform_grouped_refines_l. Qed.
+Print Assumptions C19_pydict_perform_grouped_refines.
+Example C19_grouped_ex :
+  py_grouped_num IFfill (map (fun z => [Some z]) [1;1;2;2;2]%Z) [None; Some 2; None; Some 4; Some 6] = [None; Some 2; None; Some 4; Some 6]
+  /\ py_grouped_num IBfill (map (fun z => [Some z]) [1;2;1;2]%Z) [Some 1; None; None; Some 4] = [Some 1; Some 4; None; Some 4].
+Proof. split; reflexivity. Qed.
 
 (* ---- recorded deviations: witnesses inside the domain, agreement outside where stated ---- *)
 (* C19-pandas-mode-tie-smallest *)
